@@ -16,10 +16,10 @@ CONSTANTS MaxLen,      \* bytes the application may write
           MaxNet,      \* frames in flight at once
           S, SID,      \* the sending side of the flow and its stream id
           Win, CWin    \* per-stream and connection windows both sides advertise
-VARIABLES written, shut, col, finst, net, nextId, have, finalSize, nread, eos, losses
+VARIABLES written, shut, col, finst, net, nextId, have, finalSize, nread, eos, losses, limbo
 
-dvars == <<written, shut, col, finst, net, nextId, have, finalSize, nread, eos, losses>>
-mvars == <<m, written, shut, col, finst, net, nextId, have, finalSize, nread, eos, losses>>
+dvars == <<written, shut, col, finst, net, nextId, have, finalSize, nread, eos, losses, limbo>>
+mvars == <<m, written, shut, col, finst, net, nextId, have, finalSize, nread, eos, losses, limbo>>
 
 R == Peer(S)
 MaxLoss == 2
@@ -32,6 +32,7 @@ MCInit ==
     /\ written = 0 /\ shut = FALSE /\ col = <<>> /\ finst = "none"
     /\ net = <<>> /\ nextId = 0
     /\ have = {} /\ finalSize = -1 /\ nread = 0 /\ eos = FALSE /\ losses = 0
+    /\ limbo = <<>>                 \* frames declared lost: they may still arrive / be acknowledged late (spurious loss)
 
 Frame(f) == [t |-> "stream", sid |-> SID, off |-> f.off, len |-> f.len, fin |-> f.fin, id |-> f.id, data_ok |-> TRUE]
 Positions(f) == f.off .. (f.off + f.len - 1)
@@ -42,13 +43,13 @@ AWrite(n) ==
     /\ written' = written + n
     /\ col' = [i \in 1..(written + n) |-> IF i <= written THEN col[i] ELSE "P"]
     /\ m' = Write(m, S, SID, n, n, "ok")
-    /\ UNCHANGED <<shut, finst, net, nextId, have, finalSize, nread, eos, losses>>
+    /\ UNCHANGED <<shut, finst, net, nextId, have, finalSize, nread, eos, losses, limbo>>
 
 AShutdown ==
     /\ ~shut
     /\ shut' = TRUE
     /\ m' = Shutdown(m, S, SID, "pending")
-    /\ UNCHANGED <<written, col, finst, net, nextId, have, finalSize, nread, eos, losses>>
+    /\ UNCHANGED <<written, col, finst, net, nextId, have, finalSize, nread, eos, losses, limbo>>
 
 \* a STREAM frame over any contiguous range of never-sent or lost bytes; FIN only with the last byte after shutdown
 Sendable(i) == col[i + 1] \in {"P", "L"}
@@ -65,7 +66,7 @@ PackRange(off, len, fin) ==
     /\ nextId' = nextId + 1
     /\ col' = [i \in 1..written |-> IF (i - 1) \in off .. (off + len - 1) THEN "F" ELSE col[i]]
     /\ finst' = IF fin THEN "sent" ELSE finst
-    /\ UNCHANGED <<written, shut, have, finalSize, nread, eos, losses>>
+    /\ UNCHANGED <<written, shut, have, finalSize, nread, eos, losses, limbo>>
 APack == \E off \in 0..written, len \in 0..written, fin \in BOOLEAN : PackRange(off, len, fin)
 
 \* hand (a copy of) in-flight frame i to the receiver; the frame stays in flight until acknowledged or declared lost
@@ -78,7 +79,7 @@ ADeliver(i) ==
           /\ finalSize' = IF f.fin THEN f.off + f.len ELSE finalSize
           /\ m' = Deliver(m, S, Frame(f), "ok", hi1 - Hi)
           /\ net' = [net EXCEPT ![i].delivered = TRUE]
-    /\ UNCHANGED <<written, shut, col, finst, nextId, nread, eos, losses>>
+    /\ UNCHANGED <<written, shut, col, finst, nextId, nread, eos, losses, limbo>>
 
 ALose(i) ==
     /\ i \in 1..Len(net) /\ losses < MaxLoss
@@ -86,6 +87,7 @@ ALose(i) ==
        /\ col' = [j \in 1..written |-> IF (j - 1) \in Positions(f) /\ col[j] = "F" THEN "L" ELSE col[j]]
        /\ finst' = IF f.fin /\ finst = "sent" THEN "lost" ELSE finst
     /\ net' = RemoveAt(net, i)
+    /\ limbo' = Append(limbo, net[i])
     /\ losses' = losses + 1
     /\ m' = m
     /\ UNCHANGED <<written, shut, nextId, have, finalSize, nread, eos>>
@@ -97,7 +99,27 @@ AAck(i) ==
        /\ finst' = IF f.fin THEN "acked" ELSE finst
     /\ net' = RemoveAt(net, i)
     /\ m' = m
-    /\ UNCHANGED <<written, shut, nextId, have, finalSize, nread, eos, losses>>
+    /\ UNCHANGED <<written, shut, nextId, have, finalSize, nread, eos, losses, limbo>>
+
+\* a frame that was declared lost arrives after all ...
+ALateDeliver(j) ==
+    /\ j \in 1..Len(limbo)
+    /\ LET f == limbo[j]
+           hi1 == IF f.len > 0 /\ f.off + f.len > Hi THEN f.off + f.len ELSE Hi
+       IN /\ have' = have \cup Positions(f)
+          /\ finalSize' = IF f.fin THEN f.off + f.len ELSE finalSize
+          /\ m' = Deliver(m, S, Frame(f), "ok", hi1 - Hi)
+          /\ limbo' = [limbo EXCEPT ![j].delivered = TRUE]
+    /\ UNCHANGED <<written, shut, col, finst, net, nextId, nread, eos, losses>>
+\* ... and is acknowledged after all: its bytes are received whatever was retransmitted meanwhile
+ALateAck(j) ==
+    /\ j \in 1..Len(limbo) /\ limbo[j].delivered
+    /\ LET f == limbo[j] IN
+       /\ col' = [x \in 1..written |-> IF (x - 1) \in Positions(f) THEN "R" ELSE col[x]]
+       /\ finst' = IF f.fin THEN "acked" ELSE finst
+    /\ limbo' = RemoveAt(limbo, j)
+    /\ m' = m
+    /\ UNCHANGED <<written, shut, net, nextId, have, finalSize, nread, eos, losses>>
 
 \* the application reads up to k bytes: the contiguous arrived prefix beyond nread, end-of-stream after the last byte
 Run(from, k) == CHOOSE n \in 0..k : (\A j \in from .. (from + n - 1) : j \in have) /\ (n = k \/ (from + n) \notin have)
@@ -111,14 +133,19 @@ ARead(k) ==
                              /\ m' = Read(m, R, SID, 0, TRUE, "ok", TRUE)
           ELSE /\ UNCHANGED <<nread, eos>>
                /\ m' = Read(m, R, SID, 0, FALSE, "pending", TRUE)
-       /\ UNCHANGED <<written, shut, col, finst, net, nextId, have, finalSize, losses>>
+       /\ UNCHANGED <<written, shut, col, finst, net, nextId, have, finalSize, losses, limbo>>
 
+\* frame ids are bookkeeping of the harness: they are not part of the state the properties talk about
+Shape(q) == [i \in 1..Len(q) |-> [off |-> q[i].off, len |-> q[i].len, fin |-> q[i].fin, delivered |-> q[i].delivered]]
+MCView == <<m, written, shut, col, finst, Shape(net), have, finalSize, nread, eos, losses, Shape(limbo)>>
 DoWrite == \E n \in 1..MaxLen : AWrite(n)
 DoDeliver == \E i \in 1..MaxNet : ADeliver(i)
 DoLose == \E i \in 1..MaxNet : ALose(i)
 DoAck == \E i \in 1..MaxNet : AAck(i)
 DoRead == \E k \in {1, MaxLen} : ARead(k)
-MCNext == DoWrite \/ AShutdown \/ APack \/ DoDeliver \/ DoLose \/ DoAck \/ DoRead
+DoLateDeliver == \E j \in 1..MaxLoss : ALateDeliver(j)
+DoLateAck == \E j \in 1..MaxLoss : ALateAck(j)
+MCNext == DoWrite \/ AShutdown \/ APack \/ DoDeliver \/ DoLose \/ DoAck \/ DoRead \/ DoLateDeliver \/ DoLateAck
 
 \* C01 on the design
 ReadIsPrefix == nread <= written /\ (0 .. (nread - 1)) \subseteq have /\ have \subseteq (0 .. (written - 1))
